@@ -38,12 +38,22 @@ def nm(k):
     return "n%d" % k
 
 
-def ha(k):
-    return "h%d" % k
+def ha(k, style="str"):
+    """address for interned code k.  0 is the DEFAULT/empty address '' (what a Device gets when no ha is
+    given); others are strings ('h201') or (host, port) tuples depending on the history's style"""
+    if k == 0:
+        return ""
+    return "h%d" % k if style == "str" else ("10.0.0.1", k)
 
 
 def unnm(s):
     return int(s[1:])
+
+
+def unha(a):
+    if a == "":
+        return 0
+    return a[1] if isinstance(a, tuple) else int(a[1:])
 
 
 def snapshot(stack, objs):
@@ -55,15 +65,18 @@ def snapshot(stack, objs):
             v = od[k]
             out.append((conv(k), ident.get(id(v), -1)))
         return out
-    return (index(stack.uidRemotes, int), index(stack.nameRemotes, unnm), index(stack.haRemotes, unnm),
-            [(i, (int(o.uid), unnm(o.name), unnm(o.ha))) for i, o in objs.items()])
+    return (index(stack.uidRemotes, int), index(stack.nameRemotes, unnm), index(stack.haRemotes, unha),
+            [(i, (int(o.uid), unnm(o.name), unha(o.ha))) for i, o in objs.items()])
 
 
-def run_impl(ops, puid=None):
+def run_impl(ops, puid=None, lha=None, style="str"):
     """ops: ('new', id, uid|None, name, ha) | ('add', id) | ('move'|'rename'|'reha', id, new) | ('remove', id)
     returns list of (outcome, uidx, nidx, hidx, objs)"""
     from ioflo.aio.proto import stacking, devicing
-    stack = stacking.RemoteStack(handler=Handler(), uid=LOCAL[0], name=nm(LOCAL[1]), ha=ha(LOCAL[2]),
+    lha = LOCAL[2] if lha is None else lha
+    # local address 0 = the default: pass None (Stack/Device turn it into '')
+    stack = stacking.RemoteStack(handler=Handler(), uid=LOCAL[0], name=nm(LOCAL[1]),
+                                 ha=None if lha == 0 else ha(lha, style),
                                  puid=LOCAL[0] if puid is None else puid)
     objs = {}
     out = []
@@ -74,7 +87,9 @@ def run_impl(ops, puid=None):
                 if op[1] in objs:
                     oc = "Rejected"
                 else:
-                    objs[op[1]] = devicing.RemoteDevice(stack, uid=op[2], name=nm(op[3]), ha=ha(op[4]))
+                    # address 0: alternately not given at all (None -> default '') and given as ''
+                    a = (None if op[1] % 2 == 0 else "") if op[4] == 0 else ha(op[4], style)
+                    objs[op[1]] = devicing.RemoteDevice(stack, uid=op[2], name=nm(op[3]), ha=a)
             elif op[1] not in objs:
                 oc = "Rejected"
             elif op[0] == "add":
@@ -84,7 +99,7 @@ def run_impl(ops, puid=None):
             elif op[0] == "rename":
                 stack.renameRemote(objs[op[1]], nm(op[2]))
             elif op[0] == "reha":
-                stack.rehaRemote(objs[op[1]], ha(op[2]))
+                stack.rehaRemote(objs[op[1]], ha(op[2], style))
             elif op[0] == "remove":
                 stack.removeRemote(objs[op[1]])
         except ValueError:
@@ -98,9 +113,10 @@ def run_impl(ops, puid=None):
     return out
 
 
-def prop_check(ops):
+def prop_check(ops, lha=None, style="str"):
     """the property's statement, executable, on the implementation alone"""
-    res = run_impl(ops)
+    res = run_impl(ops, lha=lha, style=style)
+    LOCALK = (LOCAL[0], LOCAL[1], LOCAL[2] if lha is None else lha)
     prev = ([], [], [], [])
     for i, (op, r) in enumerate(zip(ops, res)):
         oc, ux, nx, hx, objs = r
@@ -114,7 +130,7 @@ def prop_check(ops):
             ks = [k for k, _ in x]
             if len(set(ks)) != len(ks):
                 return "after op %d duplicate key in index %d" % (i, f)
-            if LOCAL[f] in ks:
+            if LOCALK[f] in ks:
                 return "after op %d %r a key collides with the local device" % (i, op)
             for k, v in x:
                 if v not in od or od[v][f] != k:
@@ -209,7 +225,28 @@ def histories(ctx):
             for seq in itertools.product(alpha, repeat=n):
                 if n == 3 and ctx.rng.random() > 0.08:
                     continue
-                yield su + list(seq), "small"
+                yield su + list(seq), "small", LOCAL[2], "str"
+    # 1c. the DEFAULT / empty address '' (code 0; given as None or ''): remotes sharing it, a local device
+    #     that has it too, string and (host, port) styles; then add / reha (to and from '') / rename /
+    #     remove every one of them
+    dsetups = [
+        [("new", 0, 2, 101, 0), ("new", 1, 3, 102, 0)],            # both remotes have the default address
+        [("new", 0, 2, 101, 0), ("new", 1, 3, 102, 202)],          # one default, one real
+        [("new", 0, 2, 101, 201), ("new", 1, 3, 102, 202)],        # real ones (can be re-addressed to '')
+    ]
+    dalpha = []
+    for i in range(2):
+        dalpha += [("add", i), ("remove", i), ("reha", i, 0), ("reha", i, 201), ("rename", i, 103), ("move", i, 4)]
+    for su in dsetups:
+        for lha in (0, 200):
+            for style in ("str", "tuple"):
+                for n in range(0, 4):
+                    for seq in itertools.product(dalpha, repeat=n):
+                        if n == 3 and ctx.rng.random() > ctx.n(0.03, 0.3):
+                            continue
+                        if n == 2 and style == "tuple" and not ctx.thorough and ctx.rng.random() > 0.5:
+                            continue
+                        yield su + list(seq), "default-ha", lha, style
     # 2. random long histories over 4 objects, 4 uids x 4 names x 4 has
     for _ in range(ctx.n(400, 5000)):
         ops, made = [], 0
@@ -217,7 +254,7 @@ def histories(ctx):
             u = ctx.rng.random()
             if made < 4 and (u < 0.15 or made == 0):
                 uid = None if ctx.rng.random() < 0.3 else ctx.rng.choice(UIDS + [5, 6])
-                ops.append(("new", made, uid, ctx.rng.choice(NAMES), ctx.rng.choice(HAS)))
+                ops.append(("new", made, uid, ctx.rng.choice(NAMES), ctx.rng.choice(HAS + [0, 0])))
                 made += 1
                 continue
             i = ctx.rng.randrange(made)
@@ -230,8 +267,8 @@ def histories(ctx):
             elif u < 0.85:
                 ops.append(("rename", i, ctx.rng.choice(NAMES)))
             else:
-                ops.append(("reha", i, ctx.rng.choice(HAS)))
-        yield ops, "random"
+                ops.append(("reha", i, ctx.rng.choice(HAS + [0])))
+        yield ops, "random", ctx.rng.choice([LOCAL[2], LOCAL[2], 0]), ctx.rng.choice(["str", "tuple"])
 
 
 def run(ctx):
@@ -248,47 +285,54 @@ def run(ctx):
     ]
     ctx.coq_build("C37/Props.v")
     cases, metas = [], []
-    for ops, label in histories(ctx):
-        res = run_impl(ops)
+    for ops, label, lha, style in histories(ctx):
+        res = run_impl(ops, lha=lha, style=style)
         ocs = [r[0] for r in res]
         nt = "Rejected" in ocs and any(o == "Done" and op[0] != "new" for o, op in zip(ocs, ops))
-        ctx.case({"ops": ops, "outcomes": ocs}, nontrivial=nt, kind=label)
-        cases.append(("trace (init %s %s %s %s) %s" % (cz(LOCAL[0]), cz(LOCAL[1]), cz(LOCAL[2]), cz(LOCAL[0]),
+        ctx.case({"ops": ops, "local_ha": lha, "style": style, "outcomes": ocs}, nontrivial=nt,
+                 kind=label + ("/local-default-ha" if lha == 0 else ""))
+        cases.append(("trace (init %s %s %s %s) %s" % (cz(LOCAL[0]), cz(LOCAL[1]), cz(lha), cz(LOCAL[0]),
                                                       clist([c_op(o) for o in ops], "op")),
                       clist([c_obs(r) for r in res], "obs")))
-        metas.append((ops, res))
+        metas.append((ops, res, lha, style))
     bad = ctx.coq_cases(HEADER, "tr_eqb", cases, shard=200)
     for i in bad[:5]:
-        ctx.tie_broken("correspondence", "C37 model vs RemoteStack", "ops=%r impl=%r" % metas[i])
+        ctx.tie_broken("correspondence", "C37 model vs RemoteStack",
+                       "ops=%r impl=%r local_ha=%r address_style=%r (address 0 = the default '')" % metas[i])
     ctx.extra["mismatches"] = len(bad)
     ctx.exhaustive = False
     # The model rejects with one class only (ValueError, Model.rejection_class).  A rejection raised as
     # another class (removeRemote's undefined `uid` -> NameError before fixes/C37-removeremote-nameerror.patch)
     # does not contradict C37's statement (nothing changes), so it does not alarm; it is measured here.
     ctx.extra["rejections_not_ValueError"] = {"count": len(OTHER_CLASS), "examples": OTHER_CLASS[:3]}
-    ctx.extra["outcome_distribution"] = {k: sum(1 for _, res in metas for r in res if r[0] == k)
+    ctx.extra["outcome_distribution"] = {k: sum(1 for m in metas for r in m[1] if r[0] == k)
                                          for k in ("Done", "Rejected", "KeyErr")}
+    ctx.extra["default_ha_histories"] = sum(1 for m in metas if m[2] == 0 or any(o[0] == 'new' and o[4] == 0 for o in m[0]))
 
     def search():
         best = None
-        order = [metas[i][0] for i in bad] + [m[0] for m in metas]
-        for ops in order:
-            if best is not None and len(ops) >= len(best):
+        order = [metas[i] for i in bad] + metas
+        for ops, _, lha, style in order:
+            if best is not None and len(ops) >= len(best[0]):
                 continue
-            if prop_check(ops):
-                best = list(ops)
+            if prop_check(ops, lha, style):
+                best = (list(ops), lha, style)
         if best is None:
             return None
+        ops, lha, style = best
         changed = True
         while changed:           # greedy shrink
             changed = False
-            for i in range(len(best)):
-                cand = best[:i] + best[i + 1:]
-                if prop_check(cand):
-                    best, changed = cand, True
+            for i in range(len(ops)):
+                cand = ops[:i] + ops[i + 1:]
+                if prop_check(cand, lha, style):
+                    ops, changed = cand, True
                     break
-        res = run_impl(best)
-        return {"ops": best, "why": prop_check(best), "impl_trace": [list(r) for r in res],
+        res = run_impl(ops, lha=lha, style=style)
+        return {"ops": ops, "local_ha": lha, "address_style": style,
+                "legend": "addresses are interned: 0 = the default/empty address '' (ha not given or ''), "
+                          "k = 'h<k>' (str style) or ('10.0.0.1', k) (tuple style); names n<k>",
+                "why": prop_check(ops, lha, style), "impl_trace": [list(r) for r in res],
                 "contradicts": "C37.Props.indexes_inv / rejected_unchanged / rekey_keeps_position",
                 "key": "remote-indexes"}
 
